@@ -2121,13 +2121,14 @@ func (p *Parser) evaluateSingleExpression(ctx context) (Expression, error) {
 	case lexer.NUMBER_LITERAL:
 		p.eat() // Eat number token.
 		// TODO: Implement float handling.
-		integer, err := strconv.Atoi(value)
+		// Base 0 is used to give a literal with a leading zero the same value as in Go (010 is 8).
+		integer, err := strconv.ParseInt(value, 0, 64)
 
 		if err != nil {
-			return nil, err
+			return nil, p.atError(fmt.Sprintf("invalid number %s", value), token)
 		}
 		expr = IntegerLiteral{
-			value: integer,
+			value: int(integer),
 		}
 	case lexer.NIL_LITERAL:
 		p.eat()                           // Eat string token.
